@@ -195,7 +195,7 @@ prop("C19", [
 ],
     rule="one case = a block of inputs of one section: all dotted quads over 12 boundary octets x port texts; "
          "127.0.0.1 and [::1] x every port 0..65535 and out-of-range / garbled port texts through all constructors "
-         "and Port(std::string); dot-joined part forms; IPv6 texts with every '::' position over groups {0,1,ffff}, "
+         "and Port(std::string); every port x 3 hosts once more while the process-wide C++ locale groups digits (two numpunct facets); dot-joined part forms; IPv6 texts with every '::' position over groups {0,1,ffff}, "
          "dotted-quad tails, ~200 curated texts and all their single-character edits; every string of length <= 7 "
          "over '[ ] : 1 . a' (bracket/colon clutter); Address(Ipv6(g0..g7), Port); each evaluated on the real "
          "Address / AddressParser / Port against an independent RFC 4291 / dotted-quad / port reader (inet_pton as "
